@@ -20,7 +20,9 @@ RULE = (
     "JSON.NULL, null(), document}; asm = counting TypeDecorators (1 or 2 nested, with/without "
     "process_bind_param/process_result_value, over String or a base type with processors) under every "
     "nesting of label/subquery/CTE/UNION/scalar subquery/type_coerce up to depth 4, finally selected, "
-    "RETURNED or loaded through the ORM: the executed processor steps vs the model. Oracle-only families: "
+    "RETURNED or loaded through the ORM: the executed processor steps vs the model, for a stored value AND for a "
+    "stored NULL; the same decorators over the real impl types that have a SQLite result processor (Boolean, "
+    "DateTime, Numeric, Interval, PickleType, Uuid, JSON(none_as_null), Enum; oracle only). Oracle-only families: "
     "Integer/BigInteger/String/Unicode/Text/LargeBinary/PickleType/JSON documents/Float round trips via "
     "SELECT, RETURNING and ORM load. non-trivial = a boundary value of the type's domain or a nesting depth >= 2"
 )
@@ -262,6 +264,20 @@ def gen_cases(rng, tier):
     for _ in range(1200 if big else 150):
         b = rng.choice(bases[:6]) if rng.random() < 0.8 else _ty(rng)
         cases.append({"in": [OP_ASM, _cexpr(rng, rng.randint(1, 4), b)], "kind": "asm"})
+    # the same with a NULL stored: the processors run for None as well
+    for b in bases[:6]:
+        for fin in ([0, b], [7, [0, b]], [8, [0, b]], [1, [0, b]], [2, [0, b]], [3, [0, b]], [5, [0, b]],
+                    [4, [0, b], [0, [0, 0]]], [6, [1, 5, 1, 1, [0, 1]], [0, b]]):
+            cases.append({"in": [OP_ASM, fin, 1], "kind": "asm-null"})
+    for _ in range(300 if big else 60):
+        cases.append({"in": [OP_ASM, _cexpr(rng, rng.randint(1, 3), rng.choice(bases[:6])), 1], "kind": "asm-null"})
+    # decorators over the real impl types that have a result processor on SQLite (oracle only)
+    for k in range(2, 10):
+        for nul in (0, 1):
+            for b in ([1, 1, 1, 1, [0, k]], [1, 1, 1, 1, [1, 2, 1, 1, [0, k]]]):
+                for fin in ([0, b], [7, [0, b]], [8, [0, b]], [1, [0, b]], [2, [0, b]], [3, [0, b]],
+                            [4, [0, b], [0, b]], [5, [0, b]], [2, [1, [3, [0, b]]]]):
+                    cases.append({"in": [OP_ASM, fin, nul], "kind": "asm-real", "model": False})
     # ---- oracle-only round trips
     for i in range(27):
         for ctx in range(3):
@@ -412,6 +428,11 @@ def _mk_type(tt, sa):
     if tt[0] == 0:
         if not tt[1]:
             return sa.String()
+        if tt[1] >= 2:
+            # real impl types with a result processor on SQLite (oracle-only cases)
+            return [sa.Boolean(create_constraint=False), sa.DateTime(), sa.Numeric(10, 2), sa.Interval(),
+                    sa.PickleType(), sa.Uuid(), sa.JSON(none_as_null=True),
+                    sa.Enum("x", "y", native_enum=False, length=5)][tt[1] - 2]
 
         class TracedBase(UserDefinedType):
             cache_ok = True
@@ -461,7 +482,25 @@ def _type_of(e):
     return _type_of(e[1])
 
 
-def _asm(e):
+def _base_kind(tt):
+    while tt[0] == 1:
+        tt = tt[4]
+    return tt[1]
+
+
+def _asm_value(tt):
+    import datetime as dt
+    import decimal
+    import uuid
+
+    k = _base_kind(tt)
+    if k < 2:
+        return "x"
+    return [True, dt.datetime(2020, 1, 2, 3, 4, 5, 6), decimal.Decimal("1.50"), dt.timedelta(days=-1, seconds=5),
+            {"a": (1, 2)}, uuid.UUID(int=5), {"k": 1}, "x"][k - 2]
+
+
+def _asm(e, isnull=False):
     import json
 
     st = _setup()
@@ -470,7 +509,7 @@ def _asm(e):
 
     def col(tt):
         t = _table("asm" + json.dumps(tt), lambda: _mk_type(tt, sa))
-        conn.execute(t.insert().values(v="x"))
+        conn.execute(t.insert().values(v=None if isnull else _asm_value(tt)))
         return t
 
     def expr(x):
@@ -513,7 +552,7 @@ def _asm(e):
         with Session(conn) as s:
             del TRACE[:]
             obj = s.execute(sa.select(Ent)).scalars().first()
-            assert obj.v == "x"
+            assert isnull or obj.v == _asm_value(e[1][1])
             rsteps = list(TRACE)
             del TRACE[:]
             s.execute(sa.select(Ent.v)).scalar()
@@ -527,7 +566,15 @@ def _asm(e):
         conn.execute(sa.select(ex)).scalar()
         rsteps = list(TRACE)
     del TRACE[:]
-    conn.execute(sa.select(sa.literal(1)).where(ex == "x")).scalar()
+    tt_ = _type_of(e)
+    if isnull:
+        # a NULL bound through the expression's type ("= NULL": the row does not matter, the parameter does)
+        conn.execute(sa.select(sa.literal(1)).where(ex == sa.bindparam("pnull", None, type_=ex.type))).scalar()
+    elif _base_kind(tt_) in (6, 8):
+        # no equality on pickled / JSON documents: bind through an UPDATE-free comparison of the parameter
+        conn.execute(sa.select(sa.literal(1)).where(sa.bindparam("pv", _asm_value(tt_), type_=ex.type).is_not(None))).scalar()
+    else:
+        conn.execute(sa.select(sa.literal(1)).where(ex == _asm_value(tt_))).scalar()
     bsteps = list(TRACE)
     return [rsteps, bsteps]
 
@@ -696,7 +743,7 @@ def impl(case):
             _raw_insert(t, "".join(chr(c) for c in i[1]))
             return [_res(_select(t), lambda x: [] if x is None else x.int)]
         if op == OP_ASM:
-            r, b = _asm(i[1])
+            r, b = _asm(i[1], len(i) > 2 and bool(i[2]))
             return [r, b]
         if op == OP_JSON:
             _, nan, v = i
